@@ -1,12 +1,19 @@
 (* sx interface of the C20 model.
 
-   input  [N; V; classes; opaque; rules]
+   input  [N; V; classes; opaque; rules; mode; genf]
      N        truncation order of the evaluation
      V        variable ids, V[0] = 0 (x), the others: names of statistics
      classes  [[label; pars; [[n :: params; count] ...]] ...]   true tables up to order N
      opaque   [[label; [[exponents over V; coeff] ...]] ...]     series of user verification strategies
      rules    [[kind; ...] ...] (see dec_rule)
-   output one [status; nf lhs; nf rhs; evaluation] per rule
+     mode     [e; g; r]: r = 1 the reverse constructors have the proposed guard (rule_equation_guarded); e = 1 the tree has the repaired DisjointUnion/CartesianProduct.get_equation
+              (rule_equation), 0 the methods before the fix (rule_equation_old); g likewise for the
+              selection of get_genf (genf_select / genf_select_old)
+     genf     [] or [check; root; nclasses; counts; runs; K]: counts = per class the specification's counts
+              0..check (at least), runs = the solver's lists of solutions handed to get_genf (as is,
+              reversed), a solution = per class [] (no function / no Taylor expansion) or 1 :: coefficients 0..K
+   output one [status; nf lhs; nf rhs; evaluation] per rule, then per run [5; 1; root coefficients of the
+          selected solution] or [5; 0; []] (IncorrectGeneratingFunctionError)
      status      0 equation, 1 NotImplementedError (the equation is then F = NOTIMPLEMENTED(x)), 2 malformed
      nf e        canonical form of an expression: a sorted Laurent polynomial over atoms
                  (variables, function applications with monomial arguments) — sympy
@@ -15,7 +22,7 @@
                  (lhs', rhs') = undiv (lhs, rhs) evaluated on the given tables, or [0] when
                  some sub-expression has no meaning                                           *)
 From Coq Require Import ZArith List Bool.
-From CSS Require Import Base.Sx Count.Series Count.Equations.
+From CSS Require Import Base.Sx Count.Series Count.Equations Count.GenfSelect.
 Import ListNotations.
 Open Scope Z_scope.
 
@@ -145,12 +152,14 @@ Definition dec_table (s : sx) : list (list Z * Z) :=
 (* exponent list over V -> monomial *)
 Definition mono_of (V : list Z) (exps : list Z) : mono := fun u => aget (combine V exps) u.
 
-Definition run_rule (N : Z) (V : list Z) (classes opaque : list sx) (r : rule) : sx :=
+Definition run_rule (fixed guard : bool) (N : Z) (V : list Z) (classes opaque : list sx) (r : rule) : sx :=
   let pars := fun l => sx_Zs (sx_nth (find_class l classes) 1) in
   let S := fun l => dec_table (sx_nth (find_class l classes) 2) in
   let O := fun l => map (fun e => (mono_of V (fst e), snd e)) (dec_table (sx_nth (find_class l opaque) 1)) in
-  let status := match rule_equation pars r with Ok _ _ => 0 | NotImpl => 1 | IndexErr => 2 end in
-  match spec_equation pars r with
+  let req := if fixed then (if guard then rule_equation_guarded pars r else rule_equation pars r)
+             else rule_equation_old pars r in
+  let status := match req with Ok _ _ => 0 | NotImpl => 1 | IndexErr => 2 end in
+  match placeholder pars r req with
   | Ok lhs rhs =>
       let (l', r') := undiv lhs rhs in
       let ev := match sem S O l', sem S O r' with
@@ -161,10 +170,40 @@ Definition run_rule (N : Z) (V : list Z) (classes opaque : list sx) (r : rule) :
   | _ => L [I status; L []; L []; L [I 0]]
   end.
 
-(* input [N; V; classes; opaque; rules]  ->  one result per rule *)
+(* ------------------------------------------------------------ the selection of get_genf *)
+Definition series_of (l : list Z) : Z -> Z := fun n => if n <? 0 then 0 else nth (Z.to_nat n) l 0.
+
+Definition dec_branch (s : sx) : branch :=
+  fun c => match sx_Zs (sx_nth s c) with
+           | [] => None
+           | _ :: co => Some (series_of co)
+           end.
+
+Definition run_genf (fixed : bool) (g : sx) : list sx :=
+  match sx_list g with
+  | [] => []
+  | _ =>
+      let check := sx_Z (sx_nth g 0) in
+      let root := sx_nat (sx_nth g 1) in
+      let classes := seq 0 (sx_nat (sx_nth g 2)) in
+      let W := fun c => series_of (sx_Zs (sx_nth (sx_nth g 3) c)) in
+      let K := sx_Z (sx_nth g 5) in
+      map (fun run =>
+             let bs := map dec_branch (sx_list run) in
+             match (if fixed then genf_select check root classes W bs else genf_select_old check root W bs) with
+             | Some b => L [I 5; I 1; of_Zs (map (family b root) (zrange 0 (K + 1)))]
+             | None => L [I 5; I 0; L []]
+             end) (sx_list (sx_nth g 4))
+  end.
+
+(* input [N; V; classes; opaque; rules; mode; genf]  ->  one result per rule, then one per get_genf run *)
 Definition run_c20 (inp : sx) : sx :=
   let N := sx_Z (sx_nth inp 0) in
   let V := sx_Zs (sx_nth inp 1) in
   let classes := sx_list (sx_nth inp 2) in
   let opaque := sx_list (sx_nth inp 3) in
-  L (map (fun s => run_rule N V classes opaque (dec_rule s)) (sx_list (sx_nth inp 4))).
+  let efixed := sx_bool (sx_nth (sx_nth inp 5) 0) in
+  let gfixed := sx_bool (sx_nth (sx_nth inp 5) 1) in
+  let guard := sx_bool (sx_nth (sx_nth inp 5) 2) in
+  L (map (fun s => run_rule efixed guard N V classes opaque (dec_rule s)) (sx_list (sx_nth inp 4))
+     ++ run_genf gfixed (sx_nth inp 6)).
